@@ -34,6 +34,34 @@ pub struct TimedOp {
     /// unpaged searches only: go through the collecting entry point `Ldap::search()`; the timeout
     /// governs each wait for an item there as well, and its expiry is an error, not a short result
     pub collect: bool,
+    /// plain streaming searches only: the timeout is not given with `with_timeout()` before the call but by a
+    /// user-defined adapter in its `start()` (`stream.ldap_handle().with_timeout(..)`, the one place where the
+    /// documentation says the handle of a stream may be changed to affect the operation); 2 = the caller
+    /// also gave a timeout of 30 s, which the adapter tightens
+    pub via_adapter: u8,
+}
+
+/// Adapter that does nothing but set the operation's timeout while the search is being started.
+#[derive(Clone, Debug)]
+pub struct TimeoutSetter(pub Duration);
+impl ldap3::adapters::SoloMarker for TimeoutSetter {}
+
+#[async_trait::async_trait]
+impl<'a, S, A> ldap3::adapters::Adapter<'a, S, A> for TimeoutSetter
+where
+    S: AsRef<str> + Send + Sync + 'a,
+    A: AsRef<[S]> + Send + Sync + 'a,
+{
+    async fn start(&mut self, stream: &mut ldap3::SearchStream<'a, S, A>, base: &str, scope: Scope, filter: &str, attrs: A) -> ldap3::result::Result<()> {
+        stream.ldap_handle().with_timeout(self.0);
+        stream.start(base, scope, filter, attrs).await
+    }
+    async fn next(&mut self, stream: &mut ldap3::SearchStream<'a, S, A>) -> ldap3::result::Result<Option<ldap3::ResultEntry>> {
+        stream.next().await
+    }
+    async fn finish(&mut self, stream: &mut ldap3::SearchStream<'a, S, A>) -> ldap3::result::LdapResult {
+        stream.finish().await
+    }
 }
 
 fn encode_behaviour(op: &TimedOp) -> String {
@@ -201,8 +229,12 @@ async fn run_op(ldap: &mut Ldap, op: &TimedOp) -> Vec<(u64, Ev)> {
     let ms = |t0: Instant| t0.elapsed().as_millis() as u64;
     let mut evs = vec![];
     let dn = encode_behaviour(op);
-    if let Some(t) = op.timeout {
-        ldap.with_timeout(dur_of(t));
+    if op.via_adapter == 2 {
+        ldap.with_timeout(Duration::from_secs(30));
+    } else if op.via_adapter == 0 {
+        if let Some(t) = op.timeout {
+            ldap.with_timeout(dur_of(t));
+        }
     }
     match &op.spec {
         OpSpec::Single { .. } => {
@@ -227,6 +259,10 @@ async fn run_op(ldap: &mut Ldap, op: &TimedOp) -> Vec<(u64, Ev)> {
         }
         OpSpec::Search { .. } => {
             let st = match op.paged {
+                None if op.via_adapter > 0 => {
+                    let adapters: Vec<Box<dyn ldap3::adapters::Adapter<'static, &str, Vec<&str>>>> = vec![Box::new(TimeoutSetter(dur_of(op.timeout.unwrap_or(0))))];
+                    Caught::new(ldap.streaming_search_with(adapters, &dn, Scope::Subtree, "(a=b)", vec!["*"])).await
+                }
                 None => Caught::new(ldap.streaming_search(&dn, Scope::Subtree, "(a=b)", vec!["*"])).await,
                 Some(p) => {
                     let adapters: Vec<Box<dyn ldap3::adapters::Adapter<'static, &str, Vec<&str>>>> = vec![Box::new(ldap3::adapters::PagedResults::new(p))];
@@ -302,7 +338,7 @@ fn expected(op: &TimedOp) -> (Vec<(u64, Ev)>, bool) {
     let tok = op.token;
     let mut evs = vec![];
     let mut tie = false;
-    let op = &TimedOp { token: op.token, timeout: effective(op.timeout), spec: op.spec.clone(), paged: op.paged, collect: op.collect };
+    let op = &TimedOp { token: op.token, timeout: effective(op.timeout), spec: op.spec.clone(), paged: op.paged, collect: op.collect, via_adapter: op.via_adapter };
     if op.timeout == Some(0) {
         // deadline "now": no response can have arrived; a search does not even start
         return (vec![(0, Ev::Timeout)], false);
@@ -433,7 +469,8 @@ pub fn gen_op(rng: &mut Rng, token: u64) -> TimedOp {
     let timeout = if huge { Some(*rng.pick(&[u64::MAX, u64::MAX - 1, HUGE])) } else { timeout };
     let paged = if matches!(&spec, OpSpec::Search { kinds, .. } if kinds.iter().all(|k| *k == 0)) && rng.chance(1, 4) { Some(1 + rng.below(3) as i32) } else { None };
     let collect = matches!(spec, OpSpec::Search { .. }) && paged.is_none() && rng.chance(1, 4);
-    TimedOp { token, timeout, spec, paged, collect }
+    let via_adapter = if matches!(spec, OpSpec::Search { .. }) && paged.is_none() && !collect && matches!(timeout, Some(t) if t < HUGE && t > 0) && rng.chance(1, 4) { 1 + rng.below(2) as u8 } else { 0 };
+    TimedOp { token, timeout, spec, paged, collect, via_adapter }
 }
 
 fn run_case(i: u64, rng: &mut Rng, rep: &mut Report, verbose: bool) {
@@ -484,7 +521,7 @@ fn run_case(i: u64, rng: &mut Rng, rep: &mut Report, verbose: bool) {
         let mut reuse = None;
         if table_after.1.is_empty() {
             ldap.verif_set_last_id(0);
-            let op = TimedOp { token: reuse_tok, timeout: None, spec: OpSpec::Single { delay: Some(0) }, paged: None, collect: false };
+            let op = TimedOp { token: reuse_tok, timeout: None, spec: OpSpec::Single { delay: Some(0) }, paged: None, collect: false, via_adapter: 0 };
             let evs = world::watchdog(run_op(&mut ldap, &op)).await.unwrap_or_default();
             reuse = Some((ldap.last_id(), evs));
         }
@@ -589,7 +626,8 @@ pub fn stalled_driver(ctx: &Ctx) -> Report {
         let release_after = 300 + rng.below(500);
         let big = 2_000 + rng.usize(100_000);
         let rt = runtime(rng.next());
-        let (obs, elapsed, table, maps, later) = rt.block_on(async move {
+        let crowd = *rng.pick(&[0usize, 0, 3, 40, 70]);
+        let (obs, elapsed, table, maps, later, crowd_bad) = rt.block_on(async move {
             let c = connect();
             let ldap = c.ldap;
             let mut server = c.server;
@@ -604,6 +642,25 @@ pub fn stalled_driver(ctx: &Ctx) -> Report {
                 tokio::time::sleep(Duration::from_millis(release_after)).await;
                 rel.release_writes();
             });
+            // a crowd of other timed operations gives up during the same stall: each of them at its own deadline
+            let mut crowd_tasks = vec![];
+            for k in 0..crowd {
+                let mut lc = ldap.clone();
+                crowd_tasks.push(tokio::spawn(async move {
+                    lc.with_timeout(Duration::from_millis(t_ms));
+                    let t0 = Instant::now();
+                    let r = world::watchdog(Caught::new(lc.delete(&format!("op={},b=d0", 100 + k)))).await;
+                    let e = t0.elapsed().as_millis() as u64;
+                    match r {
+                        Ok(Ok(Err(ldap3::LdapError::Timeout { .. }))) if e == t_ms => None,
+                        Ok(Ok(Err(ldap3::LdapError::Timeout { .. }))) => Some(format!("timeout after {} ms instead of {}", e, t_ms)),
+                        Ok(Ok(Ok(_))) => Some("answered".to_string()),
+                        Ok(Ok(Err(e))) => Some(format!("Err({})", world::err_class(&e))),
+                        Ok(Err(p)) => Some(format!("Panic({})", p.site())),
+                        Err(()) => Some("never-returned".to_string()),
+                    }
+                }));
+            }
             let mut lt = ldap.clone();
             lt.with_timeout(Duration::from_millis(t_ms));
             let t0 = Instant::now();
@@ -628,6 +685,12 @@ pub fn stalled_driver(ctx: &Ctx) -> Report {
                 },
             };
             let elapsed = t0.elapsed().as_millis() as u64;
+            let mut crowd_bad: Vec<String> = vec![];
+            for t in crowd_tasks {
+                if let Ok(Some(b)) = t.await {
+                    crowd_bad.push(b);
+                }
+            }
             let _ = releaser.await;
             // the peer reads again: serve whatever arrives
             let srv = tokio::spawn(timing_server(server));
@@ -646,9 +709,13 @@ pub fn stalled_driver(ctx: &Ctx) -> Report {
             drop(lt);
             srv.abort();
             let _ = c.driver.await;
-            (obs, elapsed, table, maps, later)
+            (obs, elapsed, table, maps, later, crowd_bad)
         });
         let what = ["single", "stream-start", "search()"][kind as usize];
+        if !crowd_bad.is_empty() {
+            rep.violation(format!("C12:stalled-driver:one-of-many-timed-operations:{}", crowd_bad[0].split(|c: char| c == ' ' || c == '(').next().unwrap_or("?")), format!("{} timed deletes ({} ms) during one stall: {} did not time out at their deadline, e.g. {:?}", crowd, t_ms, crowd_bad.len(), &crowd_bad[..crowd_bad.len().min(3)]), json!({"lane":"stalled_driver","case":i}));
+        }
+        rep.max("max_timed_operations_giving_up_during_one_stall", crowd as u64 + 1);
         let replay = json!({"lane":"stalled_driver","case":i});
         let desc = format!("{} with a {} ms timeout while the driver is stuck writing (released after {} ms): {} after {} ms", what, t_ms, release_after, obs, elapsed);
         if obs != "Timeout" {
